@@ -20,8 +20,16 @@ def main():
     for p in props:
         pid = p["id"]
         mod = os.path.join(HERE, "checks", pid.lower() + ".py")
-        if os.path.exists(mod) and pid in META:
-            tech, text, ref, note = META[pid]
+        if os.path.exists(mod):
+            import importlib
+            M = importlib.import_module("checks." + pid.lower())
+            if pid in META:
+                tech, text, ref, note = META[pid]
+            else:
+                tech = getattr(M, "TECHNIQUE", "exhaustive enumeration of the bounded space described in RULE")
+                text = getattr(M, "LEVEL_TEXT", M.RULE)
+                ref = "6." + pid
+                note = getattr(M, "LEVEL_NOTE", "; ".join(getattr(M, "ASSUMPTIONS", [])))
             checks.append({
                 "property_id": pid,
                 "quick_cmd": "./check %s --tier quick" % pid,
